@@ -30,6 +30,8 @@ pub struct GenCfg {
 }
 
 struct G<'a> {
+  /// resources of the library's own map resource type only admit the library's equality checker
+  maponly: BTreeSet<i64>,
   rng: &'a mut StdRng,
   nt: usize,
   nr: usize,
@@ -70,6 +72,7 @@ impl<'a> G<'a> {
       "ret" => true,
       "rd" => {
         let r = op.x;
+        if self.maponly.contains(&r) && op.c != "eq" { return false; }
         if ctx.written.contains(&r) { return false; }
         if self.one_chk { if let Some(c) = ctx.read.get(&r) { if *c != op.c { return false; } } }
         if self.free { return true; }
@@ -85,6 +88,7 @@ impl<'a> G<'a> {
       }
       "wr" | "wt" => {
         let r = op.x;
+        if self.maponly.contains(&r) && op.c != "eq" { return false; }
         if ctx.written.contains(&r) || ctx.read.contains_key(&r) { return false; }
         if self.free { return true; }
         self.writer[(r - 1) as usize] == t && !self.nowrite.contains(&t)
@@ -102,7 +106,8 @@ impl<'a> G<'a> {
         let r = if !ctx.read.is_empty() && self.rng.gen_bool(0.2) {
           *ctx.read.keys().collect::<Vec<_>>().choose(self.rng).unwrap().clone()
         } else { self.rng.gen_range(1..=self.nr as i64) };
-        let c = if let (true, Some(c)) = (self.one_chk, ctx.read.get(&r)) { c.clone() } else { self.rchk.choose(self.rng).unwrap().to_string() };
+        let c = if self.maponly.contains(&r) { "eq".to_string() }
+          else if let (true, Some(c)) = (self.one_chk, ctx.read.get(&r)) { c.clone() } else { self.rchk.choose(self.rng).unwrap().to_string() };
         Op::rd(r, &c)
       } else if roll < 68 {
         let u = if !ctx.required.is_empty() && self.rng.gen_bool(0.15) {
@@ -121,7 +126,7 @@ impl<'a> G<'a> {
         let r = *mine.choose(self.rng).unwrap();
         // a generated resource is written with an exact checker: a coarse checker cannot notice (and so cannot
         // repair) every external change to the written content, which would put the program outside C01's domain
-        let c = if self.rchk.contains(&"eqF") && self.rng.gen_bool(0.5) { "eqF".to_string() } else { "eq".to_string() };
+        let c = if self.rchk.contains(&"eqF") && self.rng.gen_bool(0.5) && !self.maponly.contains(&r) { "eqF".to_string() } else { "eq".to_string() };
         let f = self.rand_f(true);
         if self.rng.gen_bool(0.75) { Op::wr(r, &c, f) } else { Op::wt(r, &c, f) }
       } else {
@@ -230,7 +235,9 @@ pub fn generate(seed: u64, index: usize, cfg: &GenCfg) -> Scenario {
     (tt, tn, rt, rn)
   } else {
     let (nt, nr) = match cfg.fixed { Some((t, r, _)) => (t, r), None => (rng.gen_range(2..=cfg.max_t), rng.gen_range(2..=cfg.max_r)) };
-    ((0..nt).map(|_| 0).collect(), (1..=nt as u32).collect(), (0..nr).map(|_| 0).collect(), (1..=nr as u32).collect())
+    let map_ok = cfg.fixed.is_none() && !matches!(fam, "FAULT");
+    let rt: Vec<u8> = (0..nr).map(|_| if map_ok && rng.gen_bool(0.2) { 2 } else { 0 }).collect();
+    ((0..nt).map(|_| 0).collect(), (1..=nt as u32).collect(), rt, (1..=nr as u32).collect())
   };
   let nt = ttype.len();
   let nr = rtype.len();
@@ -272,7 +279,8 @@ pub fn generate(seed: u64, index: usize, cfg: &GenCfg) -> Scenario {
   let ochk: Vec<&'static str> = if exact { vec!["eq"] } else {
     let mut v: Vec<&'static str> = OCHK.to_vec(); v.shuffle(&mut rng); v.truncate(rng.gen_range(2..=6)); v
   };
-  let mut g = G { rng: &mut rng, nt, nr, nv, na, len, writer: writer.clone(), rchk, ochk, nowrite, min_req, free,
+  let maponly: BTreeSet<i64> = (0..nr).filter(|i| rtype[*i] == 2).map(|i| (i + 1) as i64).collect();
+  let mut g = G { maponly, rng: &mut rng, nt, nr, nv, na, len, writer: writer.clone(), rchk, ochk, nowrite, min_req, free,
                   one_chk: fam != "TWOCHK" };
   let mut prog: Vec<Vec<Vec<Op>>> = Vec::new();
   let flip = free && g.rng.gen_bool(0.6);
